@@ -260,6 +260,7 @@ def run(ctx):
     if not build_vhj(rep):
         return
     D = W.Descs()
+    rep.extra["types_from_snapshot"] = D.broken is not None
     cache = W.OracleCache()
     jt = C.run_lines(VHJ, ["wire.jsontypes"], shards=1)[0].split(",")
     if jt != D.json_types:
